@@ -141,7 +141,6 @@ def find_loops(code, b0, b1):
                 do_closers.remove(hit)
                 p = code.index('(', end)
                 q = _match(code, p, '(', ')')
-                hit['clauses'] = q + 1
                 semi = code.index(';', q)
                 hit['after'] = semi + 1
                 continue
@@ -152,7 +151,8 @@ def find_loops(code, b0, b1):
             if code[p] != '{':
                 raise AnnotError("do without braces at %d" % pos)
             q = _match(code, p, '{', '}')
-            d = dict(kind='do', body_top=p + 1, body_end=q, clauses=None, after=None, pos=pos)
+            # cbmc 6.11 wants the loop clauses of a do-while right after the `do` keyword
+            d = dict(kind='do', body_top=p + 1, body_end=q, clauses=end, after=None, pos=pos)
             do_closers.append(d)
             loops.append(d)
             continue
